@@ -1045,6 +1045,29 @@ fn exec(it: &mut Interp, t: &[&str]) -> Result<String, String> {
             let a = it.addrexpr(t[1])?;
             Ok(format!("{a:#x}"))
         }
+        // a reader of the forwarding state (SFT::get_forwarded_object) at every point of the winner's critical section, on a real
+        // object of a real space: before the CAS, in the BEING_FORWARDED window, after the pointer store (bits still 10),
+        // after the winner released the bits (declined to move).  `won=false` = the object was already (being) forwarded.
+        "fwdwin" => {
+            need(1)?;
+            let r = it.lookup(unum(t[1]) as u32).ok_or("err unknown-id")?;
+            let o = to_ref(r);
+            Ok(guarded(move || {
+                use mmtk::verif::conc::fwd as vc;
+                let f = |x: Option<ObjectReference>| x.map_or("-".to_string(), |y| format!("{:#x}", y.to_raw_address().as_usize()));
+                let q0 = f(o.get_forwarded_object());
+                let bits = vc::attempt_to_forward::<VerifVM>(o);
+                if vc::state_is_forwarded_or_being_forwarded(bits) {
+                    return format!("fwdwin won=false bits={bits} q0={q0}");
+                }
+                let q1 = f(o.get_forwarded_object());
+                vc::write_forwarding_pointer::<VerifVM>(o, o);
+                let q2 = f(o.get_forwarded_object());
+                vc::clear_forwarding_bits::<VerifVM>(o);
+                let q3 = f(o.get_forwarded_object());
+                format!("fwdwin won=true self={:#x} q0={q0} q1={q1} q2={q2} q3={q3}", o.to_raw_address().as_usize())
+            }))
+        }
         "islive" => {
             need(1)?;
             let r = it.lookup(unum(t[1]) as u32).ok_or("err unknown-id")?;
